@@ -31,7 +31,7 @@ OTHER_KINDS = {"fn": ["function-subtype-change", "deleted-function", "added-func
 
 
 def plan(tier):
-    return {"n": 250 if tier == "quick" else 4000, "floor": 60 if tier == "quick" else 1000}
+    return {"n": 250 if tier == "quick" else 1000, "floor": 60 if tier == "quick" else 250}
 
 
 def rule(tier):
